@@ -20,6 +20,7 @@ import itertools
 import json
 import os
 import shutil
+import threading
 import sys
 import tempfile
 import types
@@ -165,6 +166,22 @@ def firmware_of(case):
         lo, hi = int(p) * PAGE, min(len(fw), (int(p) + 1) * PAGE)
         if lo < hi:
             fw[lo:hi] = bytes([int(v, 16)]) * (hi - lo)
+    # case['tail'] / case['head'] = 'hex' or 'vv*N': bytes that overwrite the end / the beginning of the image (container magic,
+    # a DFU-suffix look-alike, erased-flash filler): the tool flashes FILES, whatever their bytes say
+    for key in ('tail', 'head'):
+        spec = case.get(key)
+        if spec:
+            if '*' in spec:
+                v, n = spec.split('*')
+                bs = bytes([int(v, 16)]) * int(n)
+            else:
+                bs = bytes.fromhex(spec)
+            bs = bs[-len(fw):] if key == 'tail' else bs[:len(fw)]
+            if bs:
+                if key == 'tail':
+                    fw[len(fw) - len(bs):] = bs
+                else:
+                    fw[:len(bs)] = bs
     return bytes(fw)
 
 
@@ -238,8 +255,29 @@ class Session:
         m = dfu_module()
         fw = firmware_of(case)
         path = os.path.join(self.tmp, 'fw.bin')
-        with open(path, 'wb') as f:
-            f.write(fw)
+        feeder = None
+        if os.path.lexists(path):
+            os.unlink(path)
+        if case.get('via') == 'fifo':
+            # the image arrives through a named pipe (mkfifo; `cat fw.bin > pipe &`): its stat size says nothing
+            os.mkfifo(path)
+
+            def feed():
+                try:
+                    with open(path, 'wb') as f:
+                        f.write(fw)
+                except OSError:
+                    pass
+            feeder = threading.Thread(target=feed, daemon=True)
+            feeder.start()
+        elif case.get('via') == 'symlink':
+            real = os.path.join(self.tmp, 'fw.real')
+            with open(real, 'wb') as f:
+                f.write(fw)
+            os.symlink('fw.real', path)
+        else:
+            with open(path, 'wb') as f:
+                f.write(fw)
         _current['serial'] = serial_for(case['pc'])
         LINK.trace = []
         r = LINK.ask('dfu-begin {} {} {}'.format(case['pc'], case['sched'], case['flash']))
@@ -267,6 +305,16 @@ class Session:
             exit_status, exit_kind, exit_text = 1, 'exception:' + type(e).__name__, repr(e)
         finally:
             sys.argv = argv
+            if feeder is not None:
+                if feeder.is_alive():
+                    # nobody opened the pipe for reading: release the writer
+                    try:
+                        fd = os.open(path, os.O_RDONLY | os.O_NONBLOCK)
+                        feeder.join(2)
+                        os.close(fd)
+                    except OSError:
+                        pass
+                feeder.join(2)
         rep = parse_report(LINK.ask('dfu-end'))
         stdout = out.getvalue()
         done = any(line.strip() == 'done!' for line in stdout.replace('\r', '\n').split('\n'))
